@@ -30,20 +30,22 @@ VARIABLES l, viol, done,
           gclo,     \* <<>>, or <<S>> after a GC until the next live observation: the index lists at least S (and at most
                     \* `indexed`); the observation then fixes `indexed` (see GCIndexLower in StoreModel.tla)
           par,      \* the operations of the concurrent tail in progress (<<>> outside one)
-          lost      \* the concurrent tail ended in a state no sequential order explains: the model state is unknown
-vars == <<l, g, content, tags, indexed, stray, tagann, viol, done, gclo, par, lost>>
+          lost,     \* the concurrent tail ended in a state no sequential order explains: the model state is unknown
+          alt       \* nodes whose bytes also lie as a stray file under another digest algorithm's directory
+                    \* (blobs/sha512/<hex>): unreachable blob files that GC has to sweep like any other
+vars == <<l, g, content, tags, indexed, stray, alt, tagann, viol, done, gclo, par, lost>>
 
 Rec == Trace[l]
 NoG == [n |-> 0]
 
 V(checks) == viol' = viol \cup {[t |-> Rec.t, i |-> Rec.i, inv |-> c[1]] : c \in {c \in checks : ~c[2]}}
 
-Init == l = 1 /\ g = NoG /\ content = {} /\ tags = <<>> /\ indexed = {} /\ stray = {} /\ tagann = <<>> /\ viol = {} /\ done = FALSE
+Init == l = 1 /\ g = NoG /\ content = {} /\ tags = <<>> /\ indexed = {} /\ stray = {} /\ alt = {} /\ tagann = <<>> /\ viol = {} /\ done = FALSE
         /\ par = <<>> /\ lost = FALSE /\ gclo = <<>>
 
 EvInit ==
   /\ Rec.e = "init"
-  /\ g' = Rec /\ content' = {} /\ indexed' = {} /\ stray' = {}
+  /\ g' = Rec /\ content' = {} /\ indexed' = {} /\ stray' = {} /\ alt' = {}
   /\ tags' = [r \in Rng(Rec.refs) |-> 0]
   /\ tagann' = [r \in Rng(Rec.refs) |-> <<"", "">>]
   /\ par' = <<>> /\ lost' = FALSE /\ gclo' = <<>>
@@ -58,7 +60,14 @@ EvOp ==
      /\ V({<<"OpResult", Rec.res = x.res>>,
            <<"NoHang", Rec.res # "hang">>})
   /\ gclo' = IF Rec.op = "gc" /\ IsOci THEN <<GCIndexLower(Present, tags, indexed)>> ELSE gclo
+  /\ alt' = IF Rec.op = "gc" /\ Rec.res = "ok" THEN {} ELSE alt
   /\ UNCHANGED <<g, par, lost>>
+
+\* a stray blob file under another algorithm's directory: nothing a store answers changes
+EvStrayAlt ==
+  /\ Rec.e = "op" /\ Rec.op = "strayalt"
+  /\ alt' = alt \cup {Rec.n}
+  /\ UNCHANGED <<g, content, tags, indexed, stray, tagann, viol, gclo, par, lost>>
 
 \* queries
 EvQuery ==
@@ -74,7 +83,7 @@ EvQuery ==
          [] Rec.op = "tags" -> {<<"TagsListing", /\ Rec.res = "ok" /\ Rec.list = Rec.sorted
                                                   /\ Rng(Rec.list) = {r \in Refs : tags[r] # 0 /\ r \in Rng(Rec.gt)}
                                                   /\ Len(Rec.list) = Cardinality(Rng(Rec.list))>>})
-  /\ UNCHANGED <<g, content, tags, indexed, stray, tagann, gclo, par, lost>>
+  /\ UNCHANGED <<g, content, tags, indexed, stray, alt, tagann, gclo, par, lost>>
 
 \* an observation of a store (the live one or a reopened one): o = [exists, fetchok, tags, bydigest, pred, taglist]
 TagPairs(T) == {<<r, T[r]>> : r \in {q \in Refs : T[q] # 0}}
@@ -106,7 +115,7 @@ EvObs ==
           /\ gclo' = <<>>
      ELSE /\ V(IF lost THEN {} ELSE ObsChecks(Rec.o, IF Rec.mode = "live" THEN "Live" ELSE "Reopen"))
           /\ UNCHANGED <<indexed, gclo>>
-  /\ UNCHANGED <<g, content, tags, stray, tagann, par, lost>>
+  /\ UNCHANGED <<g, content, tags, stray, alt, tagann, par, lost>>
 
 \* the raw directory of an OCI layout
 EvDisk ==
@@ -117,14 +126,15 @@ EvDisk ==
         <<"DiskNamedEntriesResolve", Rec.danglingnamed = 0>>}
        \cup (IF lost THEN {} ELSE
        {<<"DiskBlobFiles", Rng(Rec.blobs) = Present>>,
+        <<"DiskAltBlobFiles", Rng(Rec.altblobs) = alt>>,
         <<"DiskIndexTags", ~Rec.saved \/ {<<Rec.entries[i][1], Rec.entries[i][2]>> : i \in {j \in 1..Len(Rec.entries) : Rec.entries[j][1] # ""}}
                                = TagPairs(tags)>>}))
-  /\ UNCHANGED <<g, content, tags, indexed, stray, tagann, gclo, par, lost>>
+  /\ UNCHANGED <<g, content, tags, indexed, stray, alt, tagann, gclo, par, lost>>
 
 EvReopenErr ==
   /\ Rec.e = "reopenerr"
   /\ V({<<"ReopenOpens", FALSE>>})
-  /\ UNCHANGED <<g, content, tags, indexed, stray, tagann, gclo, par, lost>>
+  /\ UNCHANGED <<g, content, tags, indexed, stray, alt, tagann, gclo, par, lost>>
 
 \* ----- the concurrent tail (C06, last clause): "after concurrent operations quiesce the state is the one some
 \* sequential order of the same operations would produce, and no operation ever returned bytes that do not match
@@ -158,15 +168,15 @@ Matches(o, f) ==
                    THEN {f.tags[r] : r \in {q \in Refs : f.tags[q] # 0}} \subseteq Rng(o.byindex) /\ Rng(o.byindex) \subseteq f.indexed
                    ELSE Rng(o.byindex) = f.indexed)
 
-EvPar == Rec.e = "par" /\ par' = <<>> /\ UNCHANGED <<g, content, tags, indexed, stray, tagann, viol, lost, gclo>>
+EvPar == Rec.e = "par" /\ par' = <<>> /\ UNCHANGED <<g, content, tags, indexed, stray, alt, tagann, viol, lost, gclo>>
 EvPop ==
   /\ Rec.e = "pop"
   /\ par' = Append(par, Rec)
   /\ V({<<"ConcurrentNoHang", Rec.res # "hang">>,
         <<"ConcurrentFetchMatches", (Rec.op = "fetch" /\ Rec.res = "ok") => Rec.bytesok>>})
-  /\ UNCHANGED <<g, content, tags, indexed, stray, tagann, lost, gclo>>
+  /\ UNCHANGED <<g, content, tags, indexed, stray, alt, tagann, lost, gclo>>
 EvParHang == Rec.e = "parhang" /\ V({<<"ConcurrentNoHang", FALSE>>}) /\ lost' = TRUE
-             /\ UNCHANGED <<g, content, tags, indexed, stray, tagann, par, gclo>>
+             /\ UNCHANGED <<g, content, tags, indexed, stray, alt, tagann, par, gclo>>
 EvParEnd ==
   /\ Rec.e = "parend"
   /\ LET good == {f \in Finals(Cur, 1..Len(par)) : Matches(Trace[l + 1].o, f)} IN
@@ -178,6 +188,7 @@ EvParEnd ==
           /\ UNCHANGED lost
      ELSE /\ V({<<"ConcurrentSerializable", FALSE>>}) /\ lost' = TRUE
           /\ UNCHANGED <<content, tags, indexed, stray, tagann>>
+  /\ alt' = IF \E k \in 1..Len(par) : par[k].op = "gc" /\ par[k].res = "ok" THEN {} ELSE alt
   /\ par' = <<>>
   /\ UNCHANGED <<g, gclo>>
 
@@ -185,13 +196,13 @@ Step ==
   /\ l <= Len(Trace)
   /\ l' = l + 1
   /\ done' = FALSE
-  /\ \/ EvInit \/ EvOp \/ EvQuery \/ EvObs \/ EvDisk \/ EvReopenErr \/ EvPar \/ EvPop \/ EvParHang \/ EvParEnd
+  /\ \/ EvInit \/ EvOp \/ EvStrayAlt \/ EvQuery \/ EvObs \/ EvDisk \/ EvReopenErr \/ EvPar \/ EvPop \/ EvParHang \/ EvParEnd
 
 Finish ==
   /\ l = Len(Trace) + 1 /\ ~done
   /\ done' = TRUE
   /\ JsonSerialize(OutFile, [consumed |-> l - 1, viol |-> viol])
-  /\ UNCHANGED <<l, g, content, tags, indexed, stray, tagann, viol, gclo, par, lost>>
+  /\ UNCHANGED <<l, g, content, tags, indexed, stray, alt, tagann, viol, gclo, par, lost>>
 
 Next == Step \/ Finish
 Spec == Init /\ [][Next]_vars
